@@ -92,6 +92,9 @@ def gen(cls, idx, rng, tier):
         ln = rng.choice([0, 1, 2, 3, 4, 5, 7, b - 1, b, b + 1, 2 * b - 3,
                          2 * b, 2 * b + 5, 3 * b + 1, 5 * b + 3,
                          rng.randint(0, 4 * b)])
+        if cls in ("plain", "buffers") and rng.random() < .02:
+            # long transfers: hundreds of blocks, lengths past 16 bits
+            ln = rng.choice([65535, 65536, 65537, 70001, 256 * b + 3])
         kind = rng.choice(["write", "write", "read", "read", "fill",
                            "cwrite", "cread"])
         if cls == "structs" and rng.random() < .6:
